@@ -236,6 +236,7 @@ type ControlResult struct {
 	Applied  bool   `json:"applied"`
 	Detected bool   `json:"detected"`
 	Expect   string `json:"expect"`
+	Silent   bool   `json:"must_stay_silent,omitempty"`
 	Note     string `json:"note,omitempty"`
 }
 
@@ -350,7 +351,10 @@ func (r *Result) Summarize(known *KnownFile, reportDir string) int {
 		r.NewViol = append(r.NewViol, o)
 	}
 	for _, c := range r.Controls {
-		if c.Applied && !c.Detected {
+		if c.Applied && !c.Detected && c.Silent {
+			r.NewViol = append(r.NewViol, &Obligation{Rule: "self-test", Construct: c.Name, Status: Undecided,
+				Detail: "behaviour-preserving rewrite raised an alarm (" + c.Note + "): the rule is tied to the shape of the code, not to the property"})
+		} else if c.Applied && !c.Detected {
 			r.NewViol = append(r.NewViol, &Obligation{Rule: "self-test", Construct: c.Name, Status: Undecided,
 				Detail: "mutation control applied but the rule did not report " + c.Expect + ": the checker is broken, its silence proves nothing"})
 		}
